@@ -327,6 +327,9 @@ def run_scan(ck):
         for k, v in known.items():
             all_known.setdefault(k, []).extend(v)
         reqs = [l for l in lines if l["kind"] == "req"]
+        if name == "sweep" and res:
+            run_traceql_tie(ck, lines, res)
+            run_label_tie(ck, lines)
         if name == "sweep":
             # every endpoint must have been exercised: a request that stops answering with SQL is a silent loss of coverage
             by_ep = {}
@@ -386,6 +389,204 @@ def run_scan(ck):
     ck.extra["statements_checked_by_oracle"] = total
     ck.extra["known_finding_hits"] = {k: len(v) for k, v in all_known.items()}
     ck.add_samples([{"endpoint": l["ep"], "zone": l["zone"], "window": [l["from_ns"], l["to_ns"]], "sql": l["sql"][:400]} for l in sample_lines[:3]])
+
+
+# ---------------------------------------------------------------- TraceQL: planner model vs recorded statement
+TQ_EPS = {"tempo_search_traceql": ("RQ.simple", "TraceqlPlan.MSearch", 20),
+          "tempo_search_traceql_portions": ("RQ.simple", "TraceqlPlan.MSearch", 20),
+          "tempo_search_traceql_attrless": ("RQ.attrless", "TraceqlPlan.MSearch", 20),
+          "tempo_search_traceql_complex": ("RQ.complex", "TraceqlPlan.MSearch", 20),
+          "tempo_tags_v2_q": ("RQ.a_only", "TraceqlPlan.MTags", 2000),
+          "tempo_values_v2_q": ("RQ.a_only", '(TraceqlPlan.MValues ".service.name")', 2000)}
+TQ_TABLE = {"tempo_traces": 1, "tempo_traces_attrs_gin": 2, "tempo_traces_kv": 3}
+
+
+def utc_day(ns):
+    import datetime
+    return (datetime.datetime(1970, 1, 1) + datetime.timedelta(seconds=ns // 1000000000)).strftime("%Y-%m-%d")
+
+
+def run_traceql_tie(ck, lines, res):
+    """the statement the planner model builds for the TraceQL requests of the sweep gives the same set of
+    (table, failures) verdicts through tq_scans as the recorded statement through scans (parse): the planner
+    theorems of props/C13.v speak about the statements that were sent"""
+    cases, seen = [], set()
+    for l in lines:
+        if l["kind"] != "stmt" or l["ep"] not in TQ_EPS or l.get("parse_err") or l["id"] not in res:
+            continue
+        sql = l["sql"]
+        if sql.startswith("WITH pre_final"):      # the complexity estimate: another planner (judged per statement)
+            continue
+        m = re.search(r"cityHash64\(trace_id\) % (\d+)\) == \((\d+)\)", sql)
+        rf = (int(m.group(1)), int(m.group(2))) if m else (0, 0)
+        exp = sorted({(TQ_TABLE.get(table_base(t), 0), tuple(c for c in cs if c < 100)) for t, cs in res[l["id"]]["report"]})
+        key = (l["ep"], l["cluster"], l["from_ns"], l["to_ns"], rf, tuple(exp))
+        if key in seen:
+            continue
+        seen.add(key)
+        cases.append((l, rf, exp))
+    if not cases:
+        ck.obligation("TraceQL statements of the sweep compared with the planner model", False, "no statement found")
+        return
+    dates = sorted({utc_day(x) for l, _, _ in cases for x in (l["from_ns"], l["to_ns"], l["from_ns"] - 1800 * 10**9, l["to_ns"] - 1800 * 10**9)})
+    dn = {d: "d_%d" % i for i, d in enumerate(dates)}
+    hdr = ("From Coq Require Import List ZArith NArith String Ascii Bool.\n"
+           "From Qryn Require Import lib.Strs model.Sql model.Scans model.ScansTq.\n"
+           "From Qryn Require model.TqSql model.Traceql model.TraceqlPlan.\n"
+           "Import ListNotations.\nOpen Scope string_scope.\nOpen Scope Z_scope.\n"
+           + "".join('Definition %s := "%s".\n' % (n, d) for d, n in dn.items()) +
+           "Definition mk (f t : Z) (fd td ffd fft : string) (lim : Z) (cl : bool) (rfm rfi : Z) : TraceqlPlan.ctx :=\n"
+           "  {| TraceqlPlan.from_ns := f; TraceqlPlan.to_ns := t; TraceqlPlan.from_date := fd; TraceqlPlan.to_date := td;\n"
+           "     TraceqlPlan.ffd_from := ffd; TraceqlPlan.ffd_to := fft; TraceqlPlan.limit := lim; TraceqlPlan.is_cluster := cl;\n"
+           "     TraceqlPlan.rf_max := rfm; TraceqlPlan.rf_i := rfi; TraceqlPlan.cached := [];\n"
+           '     TraceqlPlan.attrs_table := "tempo_traces_attrs_gin"; TraceqlPlan.attrs_dist_table := "tempo_traces_attrs_gin_dist";\n'
+           '     TraceqlPlan.traces_table := "tempo_traces"; TraceqlPlan.traces_dist_table := "tempo_traces_dist";\n'
+           '     TraceqlPlan.kv_dist_table := "tempo_traces_kv_dist" |}.\n')
+    items = []
+    for i, (l, rf, exp) in enumerate(cases):
+        q, mode, lim = TQ_EPS[l["ep"]]
+        f, t = l["from_ns"], l["to_ns"]
+        ctx = "(mk %d %d %s %s %s %s %d %s %d %d)" % (f, t, dn[utc_day(f)], dn[utc_day(t)], dn[utc_day(f - 1800 * 10**9)], dn[utc_day(t - 1800 * 10**9)],
+                                                      lim, "true" if l["cluster"] else "false", rf[0], rf[1])
+        e = "[" + "; ".join("(%d, [%s])" % (tb, "; ".join(str(c) for c in cs)) for tb, cs in exp) + "]"
+        items.append("{| tc_id := %d; tc_ctx := %s; tc_q := %s; tc_mode := %s; tc_expected := %s |}" % (i, ctx, q, mode, e))
+    txt = (hdr + "Definition cases : list tq_case := [\n " + ";\n ".join(items) + "].\n"
+           "Definition M := Eval vm_compute in tq_case_mismatches cases.\nPrint M.\n"
+           "Definition K := Eval vm_compute in tq_ctx_not_ok cases.\nPrint K.\n")
+    rc, out = ck.coq_eval("C13_traceql", txt, timeout=600)
+    flat = " ".join((out or "").split())
+    m = re.search(r"M = \[(.*?)\]\s*: list Z", flat)
+    k = re.search(r"K = \[(.*?)\]\s*: list Z", flat)
+    if rc != 0 or not m or not k:
+        ck.obligation("TraceQL planner model evaluated on the requests of the sweep", False, (out or "")[-1500:])
+        return
+    bad = [int(x) for x in re.findall(r"-?\d+", m.group(1))]
+    notok = [int(x) for x in re.findall(r"-?\d+", k.group(1))]
+    ck.obligation("correspondence: tq_scans (TraceqlPlan.plan q mode ctx) and scans (parse of the recorded statement) give the same verdicts "
+                  "on %d distinct TraceQL search / tags / values requests (%d endpoints, both layouts, every window class)" % (len(cases), len({c[0]["ep"] for c in cases})),
+                  not bad, "; ".join("%s %s [%d,%d): recorded %s" % (cases[i][0]["ep"], "cluster" if cases[i][0]["cluster"] else "single",
+                                                                   cases[i][0]["from_ns"], cases[i][0]["to_ns"], cases[i][2]) for i in bad[:4]))
+    ck.obligation("the hypothesis tq_ctx_ok of the TraceQL theorems (UTC date texts, window inside 1970..2100) holds of every compared request context",
+                  not notok, "; ".join("%s [%d,%d)" % (cases[i][0]["ep"], cases[i][0]["from_ns"], cases[i][0]["to_ns"]) for i in notok[:4]))
+    ck.extra["traceql_model_ties"] = len(cases)
+    ck.coverage["evaluations"] += len(cases)
+
+
+# ---------------------------------------------------------------- label values / series: planner model vs recorded text
+LV_EPS = {  # endpoint -> (key or None for series, selectors [[(name, op, value)]], type)
+    "loki_label_values": ("job", [], 1),
+    "loki_label_values_match": ("job", [[("a", "MEq", "b")]], 1),
+    "loki_series": (None, [[("a", "MEq", "b")], [("c", "MRe", "d.*")]], 1),
+    "prom_label_values": ("job", [], 2),
+    "prom_label_values_match": ("job", [[("a", "MEq", "b"), ("__name__", "MEq", "up")]], 2),
+    "prom_series": (None, [[("__name__", "MEq", "up"), ("a", "MEq", "b")]], 2)}
+LV_CLASSES = ("plain-noon", "cross-midnight", "first-half-hour", "sub-second", "month-end", "random")
+
+
+def run_label_tie(ck, lines):
+    """text of the model's ValuesPlanner / SeriesPlanner statement = recorded statement, byte for byte (a sample:
+    every endpoint x layout x some window classes; Coq string literals are slow)"""
+    cases, seen = [], set()
+    for l in lines:
+        if l["kind"] != "stmt" or l["ep"] not in LV_EPS or l["zone"] not in (0, -18000):
+            continue
+        key = (l["ep"], l["cluster"], l["class"])
+        if key in seen or l["class"] not in LV_CLASSES or len([k for k in seen if k[:2] == key[:2]]) >= 4:
+            continue
+        seen.add(key)
+        cases.append(l)
+    if not cases:
+        ck.obligation("label values / series statements of the sweep compared with the planner model", False, "no statement found")
+        return
+    items = []
+    for i, l in enumerate(cases):
+        k, sels, ty = LV_EPS[l["ep"]]
+        series = k is None
+        if l["cluster"]:
+            db = re.search(r"`([^`]+)`\.", l["sql"])
+            pre = "`%s`." % db.group(1) if db else ""
+            gin = pre + "time_series_gin" if series else "time_series_gin_dist"
+            ts, tsd = pre + "time_series", pre + "time_series_dist"
+        else:
+            gin, ts, tsd = "time_series_gin", "time_series", "time_series"
+        ctx = ('{| c_from_ns := %d; c_to_ns := %d; c_limit := 10000; c_asc := false; c_cluster := %s; c_type := %d; c_finalize := false; '
+               'c_step_ns := 0; t_gin := %s; t_samples := ""; t_ts := %s; t_ts_dist := %s; t_m15 := "" |}' % (
+                   l["from_ns"], l["to_ns"], "true" if l["cluster"] else "false", ty, coq_string(gin), coq_string(ts), coq_string(tsd)))
+        ms = "[" + "; ".join("[" + "; ".join('{| m_name := %s; m_op := %s; m_val := %s |}' % (coq_string(n), op, coq_string(v)) for n, op, v in sel) + "]" for sel in sels) + "]"
+        items.append("{| lv_id := %d; lv_ctx := %s; lv_key := %s; lv_sels := %s; lv_sql := %s |}" % (
+            i, ctx, "None" if series else "Some " + coq_string(k), ms, coq_string(l["sql"])))
+    txt = ("From Coq Require Import List ZArith NArith String Ascii Bool.\n"
+           "From Qryn Require Import lib.Strs model.Sql model.Logql model.LogqlPlan model.ScansPlanners.\n"
+           "Import ListNotations.\nOpen Scope string_scope.\nOpen Scope Z_scope.\n"
+           "Definition cases : list lv_case := [\n " + ";\n ".join(items) + "].\n"
+           "Definition M := Eval vm_compute in lv_mismatches cases.\nPrint M.\n")
+    rc, out = ck.coq_eval("C13_labels", txt, timeout=600)
+    flat = " ".join((out or "").split())
+    m = re.search(r"M = \[(.*?)\]\s*: list Z", flat)
+    if rc != 0 or not m:
+        ck.obligation("label values / series planner model evaluated on the requests of the sweep", False, (out or "")[-1500:])
+        return
+    bad = [int(x) for x in re.findall(r"-?\d+", m.group(1))]
+    ck.obligation("correspondence: render (values_planner / series_planner) = recorded statement, byte for byte, on %d label-values / series requests "
+                  "(%d endpoints, both layouts)" % (len(cases), len({c["ep"] for c in cases})), not bad,
+                  "; ".join("%s %s %s: %.300s" % (cases[i]["ep"], "cluster" if cases[i]["cluster"] else "single", cases[i]["class"], cases[i]["sql"]) for i in bad[:3]))
+    ck.extra["label_model_ties"] = len(cases)
+    ck.coverage["evaluations"] += len(cases)
+
+
+# ---------------------------------------------------------------- the stored day of trace attribute rows
+def run_spandate(ck):
+    if not ck.go_build("spandate"):
+        ck.obligation("harness spandate builds against the repository", False, ck.build_out[-1500:])
+        return
+    outp = os.path.join(ck.work, "spandate.jsonl")
+    rc, out = ck.go_run("spandate", ["--seed", ck.seed, "--n", ck.n(640, 640), "--out", outp])
+    if rc != 0:
+        ck.obligation("harness spandate ran", False, out[-1500:])
+        return
+    cs = [json.loads(x) for x in open(outp)]
+    corpus = os.path.join(VERIF, "corpus", "C13", "spandate_fixed.jsonl")
+    if os.path.exists(corpus):
+        outc = os.path.join(ck.work, "spandate_corpus.jsonl")
+        rc, out = ck.go_run("spandate", ["--cases", corpus, "--out", outc])
+        if rc != 0:
+            ck.obligation("harness spandate ran the corpus", False, out[-1500:])
+            return
+        cs = [json.loads(x) for x in open(outc)] + cs
+    errs = [c for c in cs if c.get("err")]
+    ck.obligation("spandate: every span was accepted by the real parsers (%d spans: OTLP and Zipkin, 32 process zones)" % len(cs), not errs and len(cs) >= 600,
+                  "; ".join("%s %s" % (c["fmt"], c["err"]) for c in errs[:3]))
+    items = ["{| dc_id := %d; dc_off := %d; dc_ts := %d; dc_days := [%s] |}" % (c["id"], c["offset"], c["ts_ns"], "; ".join(str(d) for d in c["days"])) for c in cs]
+    txt = ("From Coq Require Import List ZArith NArith String Ascii Bool.\n"
+           "From Qryn Require Import model.Scans model.ScanCases.\nImport ListNotations.\nOpen Scope Z_scope.\n"
+           "Definition cases : list day_case := [\n " + ";\n ".join(items) + "].\n"
+           "Definition M := Eval vm_compute in day_mismatches cases.\nPrint M.\n"
+           "Definition V := Eval vm_compute in day_spec_violations cases.\nPrint V.\n")
+    rc, out = ck.coq_eval("C13_spandate", txt, timeout=600)
+    flat = " ".join((out or "").split())
+    m = re.search(r"M = \[(.*?)\]\s*: list Z", flat)
+    v = re.search(r"V = \[(.*?)\]\s*: list Z", flat)
+    if rc != 0 or not m or not v:
+        ck.obligation("stored days evaluated inside Coq", False, (out or "")[-1500:])
+        return
+    mm = [int(x) for x in re.findall(r"-?\d+", m.group(1))]
+    vv = [int(x) for x in re.findall(r"-?\d+", v.group(1))]
+    by = {c["id"]: c for c in cs}
+    ck.obligation("correspondence: model attrs_stored_day = day of the Date column the real trace write path produces, %d spans under 32 process time zones" % len(cs),
+                  not mm, "; ".join("zone %+d ts %d %s: days %s" % (by[i]["offset"], by[i]["ts_ns"], by[i]["fmt"], by[i]["days"]) for i in mm[:4]))
+    ck.obligation("spec: every trace attribute row is filed under the UTC day of its span (the day every reader date bound is computed from)",
+                  not vv, "; ".join("zone %+d ts %d %s: days %s" % (by[i]["offset"], by[i]["ts_ns"], by[i]["fmt"], by[i]["days"]) for i in vv[:4]))
+    if vv:
+        c = min((by[i] for i in vv), key=lambda c: (abs(c["offset"]), c["ts_ns"]))
+        ck.violation({"property": "C13", "part": "writer-side index date", "kind": "a trace attribute row is filed under a day the reader's date bounds do not cover",
+                      "format": c["fmt"], "zone_seconds_east": c["offset"], "span_timestamp_ns": c["ts_ns"], "utc_day": c["ts_ns"] // (86400 * 10**9),
+                      "stored_days": c["days"], "replay": "harness spandate: one span with this timestamp under time.Local = FixedZone(offset)"})
+    hist = {}
+    for c in cs:
+        hist[c["class"] + "/" + c["fmt"]] = hist.get(c["class"] + "/" + c["fmt"], 0) + 1
+    ck.extra["spandate_classes"] = hist
+    ck.coverage["evaluations"] += len(cs)
+    ck.coverage["distinct_nontrivial"] += len({(c["offset"], c["ts_ns"], c["fmt"]) for c in cs})
 
 
 def static_date_sites(ck):
@@ -450,4 +651,5 @@ def run(ck):
             sqltext.run_logql_metric(ck, n_quick=300, n_thorough=15000)
     if not ck.replay:
         static_date_sites(ck)
+        run_spandate(ck)
     run_scan(ck)
